@@ -39,6 +39,17 @@ def runFns (op : String) (a : Json) : Except String Json := do
     let create ← (a.getObjValD "create").getNat?
     let style ← (a.getObjValD "style").getNat?
     return outToJson pairJ (Fns.lookup ns create style path doc)
+  | "lookup2" =>
+    let path ← strList (a.getObjValD "path")
+    let create ← (a.getObjValD "create").getNat?
+    match Fns.lookup ns create 0 path doc with
+    | .ok (d1, _) =>
+      match Fns.lookup ns create 0 path d1 with
+      | .ok (d2, r) => return Json.mkObj [("ok", Json.mkObj [("doc", nodeToJson d2), ("res", optNodeToJson r), ("path", Json.arr (path.map Json.str).toArray)])]
+      | .err c => return Json.mkObj [("err", Json.str ("second:" ++ c))]
+      | .panic c => return Json.mkObj [("panic", Json.str c)]
+    | .err c => return Json.mkObj [("err", Json.str c)]
+    | .panic c => return Json.mkObj [("panic", Json.str c)]
   | "setfield" =>
     let name ← (a.getObjValD "name").getStr?
     let v ← optNodeOfJson (a.getObjValD "value")
